@@ -95,10 +95,10 @@ class HCfg:
         return self.v6(node) if six else self.v4(node)
 
 
-# Packet loss (scripted droppers, tail-dropping queues) is outside C07 / C13: SYNs have no retry and the
-# retransmission machinery is C06's. With LOSS = False the configurations of this generator drop nothing and
-# generate() leaves out the net_gen scenarios that contain a dropper.
-LOSS = False
+# Packet loss (scripted droppers, tail-dropping queues) is not what C07 / C13 are about, but their statements hold
+# under loss too (a lost SYN is never retried: that connect just never completes). LOSS = False switches every
+# dropping configuration off (and leaves out the net_gen scenarios that contain one).
+LOSS = True
 
 TIMES = [0, 0, 1000, 1000000, 5000000, 50000000, 50000000, 120000000, 300000000, 300000000, 700000000, 1500000000]
 
